@@ -130,15 +130,19 @@ var c05Knobs = []string{"comment-line", "block-comment", "blank-line", "trailing
 
 func TestC05(t *testing.T) {
 	h := vlib.New(t, "C05", "exploration",
-		"generated documents (valid, and with one injected fault) x two independently drawn styles (comment lines, block comments, blank lines, indentation, trailing blanks, trailing comments, LF/CRLF/CR, quoting of parameters, explicit parentheses, annotation and description spelling); thorough tier additionally applies every rewrite at every single position of 2000 documents; oracle: same verdict and byte-identical catalog; non-trivial = accepted, >= 4 directives, the two renderings differ in >= 2 knob classes; distinct by (document, style pair)",
+		"generated documents (valid, and with one injected fault) x two independently drawn styles (comment lines, block comments, blank lines, indentation, trailing blanks, trailing comments, LF/CRLF/CR, final line end present or not, quoting of parameters, explicit parentheses, annotation and description spelling); thorough tier additionally applies every rewrite at every single position of 2000 documents; oracle: same verdict and byte-identical catalog; non-trivial = accepted, >= 4 directives, the two renderings differ in >= 2 knob classes; distinct by (document, style pair)",
 		"newline rewriting only for documents whose free text is single-line (the property excludes multi-line free text)", "a trailing '# comment' is not placed after a /* */ annotation nor after bare description text (there '#' is content)", "nothing is required of the diagnostic of a rejected document beyond its existence")
-	h.Require("accepted", "rejected", "knob:comment-line", "knob:block-comment", "knob:blank-line", "knob:trailing-blanks", "knob:trailing-comment", "knob:quote-param", "knob:explicit-parens", "knob:annotation-block-spelling", "knob:description-parens", "knob:newline-crlf", "knob:newline-cr")
+	h.Require("accepted", "rejected", "knob:comment-line", "knob:block-comment", "knob:blank-line", "knob:trailing-blanks", "knob:trailing-comment", "knob:quote-param", "knob:explicit-parens", "knob:annotation-block-spelling", "knob:description-parens", "knob:newline-crlf", "knob:newline-cr", "knob:no-final-newline")
 
 	gen := func(faulty bool) func(t *rapid.T) c05Case {
 		return func(t *rapid.T) c05Case {
 			doc := vlib.GenDoc(t, vlib.GenOpts{Macros: rapid.Bool().Draw(t, "macros"), SingleLineText: rapid.Bool().Draw(t, "single")})
 			if faulty {
-				doc = injectAnyFault(t, doc)
+				if d2, ok := vlib.InjectBodyFault(t, doc); ok && rapid.IntRange(0, 3).Draw(t, "bodyFault") == 0 {
+					doc = d2
+				} else {
+					doc = injectAnyFault(t, doc)
+				}
 			}
 			nl := !doc.HasMultilineFreeText()
 			return c05Case{Doc: doc, A: genStyle(t, nl), B: genStyle(t, nl)}
